@@ -198,6 +198,22 @@ func Seeds(s Spec) [][]byte {
 	if f := Extra[s.Module]; f != nil {
 		add(f())
 	}
+	if s.Module == "rdp" {
+		// length-consistent truncations: every TPKT-framed message of the corpus cut short by
+		// 1..48 bytes with the TPKT length and the X.224 length indicator rewritten to agree
+		// with what is left (a truncation the length checks alone cannot see)
+		for _, m := range append([][]byte(nil), out...) {
+			if len(m) < 12 || m[0] != 3 || m[1] != 0 || int(m[2])<<8|int(m[3]) != len(m) {
+				continue
+			}
+			for cut := 1; cut <= 48 && len(m)-cut >= 11; cut++ {
+				t := append([]byte(nil), m[:len(m)-cut]...)
+				t[2], t[3] = byte(len(t)>>8), byte(len(t))
+				t[4] = byte(len(t) - 5)
+				add([][]byte{t})
+			}
+		}
+	}
 	seedCache[s.Module] = out
 	return out
 }
